@@ -15,6 +15,11 @@ import NeumannModel.Vault.AtRest
     * a requester string that is a secret's graph-node key (`vault_secret:…`) gets nothing from any entry point,
       in every state (`secret_node_key_is_no_identity`); before ad58047e it got Admin on its own secret through
       the `source == target` shortcut of the path search (`secret_node_key_as_identity_old_witness`);
+    * cascading revocation walks delegation RECORDS, not agents: for every set of records (diamonds, an agent with
+      several delegating parents, …) every record reachable from the revoked one is removed together with the edges
+      it created (`cascading_revocation_reaches_every_record_below`), nothing else is removed
+      (`cascading_revocation_removes_only_records_below`); the walk with a visited-AGENTS set is not complete
+      (`cascade_visited_agents_leaves_delegation_witness`);
     * secret VALUES never reach the store / audit log in readable form (`at_rest_no_plain_value`);
     * secret NAMES: clean in the secret node, `_vk:`, `_vs:` and audit records
       (`at_rest_no_plain_name_partial`), still readable in the persisted TTL tracker and the delegation
@@ -656,7 +661,9 @@ example :
 /-- FULL, every state: `revoke_delegation_cascading(parent, child)` answers with records that existed, removes every
     VAULT_ACCESS edge those records' children held on the delegated secrets, includes the direct record when there
     is one, and leaves no record hanging below: no surviving record is the direct one, has `child` as its parent, or
-    has the child of any revoked record as its parent (the breadth-first walk reaches the whole sub-tree). -/
+    has the child of any revoked record as its parent.  Nothing is assumed about the shape of the record set (the
+    surviving set is CLOSED under "delegated onward"); the reachability form of the same fact, for arbitrary record
+    graphs, is `cascading_revocation_reaches_every_record_below` below. -/
 theorem cascading_revocation_complete (s : State) (parent child : Nat) (pairs : List (Nat × Nat))
     (h : (s.undelegateCascade parent child).2 = .pairs pairs) :
     (∀ pc ∈ pairs, ∃ d ∈ s.delegs, (d.parent, d.child) = pc ∧
@@ -728,6 +735,193 @@ example :
     (step (step s 1 (.undelegateCascade 1 2)).1 1 (.get 2 1)).2 = .err .denied ∧
     (step (step s 1 (.undelegateCascade 1 2)).1 1 (.get 1 1)).2 = .value 7 ∧
     (step s 1 (.undelegateCascade 3 1)).2 = .pairs [(1, 2), (2, 3)] := by decide
+
+/-- the records BELOW the record `parent → child` in an arbitrary set of delegation records — no shape is assumed:
+    chains, trees, diamonds, an agent that holds delegations from several parents (in one branch or not, at one depth
+    or several), even cycles.  It is the record graph that is walked, not the agent graph: a record `x → y` is
+    followed by every record `y → z`. -/
+inductive Below (ds : List DelegRec) (parent child : Nat) : DelegRec → Prop
+  | direct {d : DelegRec} : d ∈ ds → d.parent = parent → d.child = child → Below ds parent child d
+  | onward {d d' : DelegRec} : Below ds parent child d → d' ∈ ds → d'.parent = d.child → Below ds parent child d'
+
+/-- FULL, every state, every SET of delegation records (not only trees): after `revoke_delegation_cascading(parent,
+    child)` EVERY record below `parent → child` in the record graph is gone — from the manager and from the
+    persisted `_vdel:` copy that a re-opened vault loads —, is among the records the call reports, and the agent it
+    delegated to holds no VAULT_ACCESS edge any more on any of the secrets it delegated.  In particular a second
+    record into an agent that was already reached through another record is revoked like the first. -/
+theorem cascading_revocation_reaches_every_record_below (s : State) (parent child : Nat) (d : DelegRec)
+    (hb : Below s.delegs parent child d) :
+    d ∉ (s.undelegateCascade parent child).1.delegs ∧
+    d ∉ (s.undelegateCascade parent child).1.pdelegs ∧
+    (∃ pairs, (s.undelegateCascade parent child).2 = .pairs pairs ∧ (d.parent, d.child) ∈ pairs) ∧
+    ∀ sec ∈ d.secrets, ∀ e ∈ (s.undelegateCascade parent child).1.graph,
+      ¬ (e.src = entNode d.child ∧ e.dst = secNode sec ∧ e.kind.isAccess = true) := by
+  have hlen : [child].length + (s.delegs.filter (fun d => !(d.parent = parent && d.child = child))).length ≤
+      s.delegs.length + 1 := by
+    have := List.length_filter_le (fun d : DelegRec => !(d.parent = parent && d.child = child)) s.delegs
+    simp only [List.length_cons, List.length_nil]; omega
+  obtain ⟨new, hacc, _, hsurv⟩ := cascadeLoop_spec _ _ _
+    (s.delegs.filter (fun d => d.parent = parent && d.child = child)) hlen
+  have hpart := cascadeLoop_partition (s.delegs.length + 1) [child]
+    (s.delegs.filter (fun d => !(d.parent = parent && d.child = child)))
+    (s.delegs.filter (fun d => d.parent = parent && d.child = child))
+  have hcases := cascadeLoop_snd_cases (s.delegs.length + 1) [child]
+    (s.delegs.filter (fun d => !(d.parent = parent && d.child = child)))
+    (s.delegs.filter (fun d => d.parent = parent && d.child = child))
+  have hsub := cascadeLoop_fst_sub (s.delegs.length + 1) [child]
+    (s.delegs.filter (fun d => !(d.parent = parent && d.child = child)))
+    (s.delegs.filter (fun d => d.parent = parent && d.child = child))
+  -- every record below the revoked one is among the revoked records
+  have hR : d ∈ (cascadeLoop (s.delegs.length + 1) [child]
+      (s.delegs.filter (fun d => !(d.parent = parent && d.child = child)))
+      (s.delegs.filter (fun d => d.parent = parent && d.child = child))).2 := by
+    induction hb with
+    | direct hd hp hc => exact hpart.1 _ (List.mem_filter.mpr ⟨hd, by simp [hp, hc]⟩)
+    | @onward d0 d' _ hd' hpar ih =>
+      by_cases hm : d'.parent = parent ∧ d'.child = child
+      · exact hpart.1 _ (List.mem_filter.mpr ⟨hd', by simp [hm.1, hm.2]⟩)
+      · have hin : d' ∈ s.delegs.filter (fun d => !(d.parent = parent && d.child = child)) := by
+          refine List.mem_filter.mpr ⟨hd', ?_⟩
+          simp only [Bool.not_eq_true', Bool.and_eq_false_iff, decide_eq_false_iff_not]
+          by_cases h1 : d'.parent = parent
+          · exact Or.inr (fun h2 => hm ⟨h1, h2⟩)
+          · exact Or.inl h1
+        rcases hpart.2 _ hin with hk | hr
+        · exfalso
+          obtain ⟨_, hq, hn⟩ := hsurv _ hk
+          rw [hacc] at ih
+          rcases List.mem_append.mp ih with h1 | h1
+          · have h2 := (List.mem_filter.mp h1).2
+            simp only [Bool.and_eq_true, decide_eq_true_eq] at h2
+            exact hq (by rw [hpar, h2.2]; exact List.mem_singleton.mpr rfl)
+          · exact hn d0 h1 hpar
+        · exact hr
+  have hnot : d ∉ (cascadeLoop (s.delegs.length + 1) [child]
+      (s.delegs.filter (fun d => !(d.parent = parent && d.child = child)))
+      (s.delegs.filter (fun d => d.parent = parent && d.child = child))).1 := by
+    rcases hcases d hR with h | h
+    · intro hin
+      have h1 := (List.mem_filter.mp h).2
+      have h2 := (List.mem_filter.mp (hsub d hin)).2
+      simp only [Bool.and_eq_true, decide_eq_true_eq] at h1
+      simp [h1.1, h1.2] at h2
+    · exact h.2
+  have hdel : ∀ (x : State), x.persistDelegs.persistTtl.delegs = x.delegs := by
+    intro x; unfold State.persistTtl; split <;> rfl
+  have hpdel : ∀ (x : State), x.persistDelegs.persistTtl.pdelegs = x.delegs := by
+    intro x; unfold State.persistTtl; split <;> rfl
+  unfold State.undelegateCascade
+  simp only [persistTtl_graph, persistDelegs_graph]
+  rw [hdel, hpdel, foldl_dropRecord_delegs]
+  refine ⟨hnot, hnot, ⟨_, rfl, List.mem_map.mpr ⟨d, hR, rfl⟩⟩, fun sec hsec e he => ?_⟩
+  exact ((mem_foldl_dropRecord_graph _ _).mp he).2 d hR sec hsec
+
+/-- FULL, every state, every set of records — the converse: the cascade removes NOTHING ELSE.  A record that is gone
+    afterwards was the record `parent → child` itself or is reachable from the agent `child` in the record graph
+    (`FromAgents`; when the record `parent → child` exists this is `Below`); every other delegation record is kept. -/
+theorem cascading_revocation_removes_only_records_below (s : State) (parent child : Nat) (d : DelegRec)
+    (hd : d ∈ s.delegs) (hgone : d ∉ (s.undelegateCascade parent child).1.delegs) :
+    (d.parent = parent ∧ d.child = child) ∨ FromAgents s.delegs [child] d := by
+  have hdel : ∀ (x : State), x.persistDelegs.persistTtl.delegs = x.delegs := by
+    intro x; unfold State.persistTtl; split <;> rfl
+  unfold State.undelegateCascade at hgone
+  simp only at hgone
+  rw [hdel, foldl_dropRecord_delegs] at hgone
+  by_cases hm : d.parent = parent ∧ d.child = child
+  · exact Or.inl hm
+  · refine Or.inr ?_
+    have hin : d ∈ s.delegs.filter (fun d => !(d.parent = parent && d.child = child)) := by
+      refine List.mem_filter.mpr ⟨hd, ?_⟩
+      simp only [Bool.not_eq_true', Bool.and_eq_false_iff, decide_eq_false_iff_not]
+      by_cases h1 : d.parent = parent
+      · exact Or.inr (fun h2 => hm ⟨h1, h2⟩)
+      · exact Or.inl h1
+    rcases (cascadeLoop_partition (s.delegs.length + 1) [child] _
+        (s.delegs.filter (fun d => d.parent = parent && d.child = child))).2 d hin with hk | hr
+    · exact absurd hk hgone
+    · rcases cascadeLoop_only_below _ _ _ _ d hr with h | h
+      · have h1 := (List.mem_filter.mp h).2
+        simp only [Bool.and_eq_true, decide_eq_true_eq] at h1
+        exact absurd h1 hm
+      · exact h.mono (fun x hx => (List.mem_filter.mp hx).1)
+
+/-- non-vacuity: D=4 holds a delegation from B=2 (s1, below A → B) and one from C=3 (s2, NOT below it): the cascade of
+    A → B takes the first and keeps the second, D loses s1 and still reads s2 -/
+example :
+    let s := run (init) [(0, .set 0 1 7 3), (0, .set 0 2 8 3), (0, .grant 0 1 1 .admin), (0, .grant 0 3 2 .admin),
+                         (0, .delegate 1 2 [1] .write none), (0, .delegate 2 4 [1] .read none),
+                         (0, .delegate 3 4 [2] .read none)]
+    (step s 1 (.undelegateCascade 1 2)).2 = .pairs [(1, 2), (2, 4)] ∧
+    (step s 1 (.undelegateCascade 1 2)).1.delegs = [⟨3, 4, [2], 1⟩] ∧
+    (step (step s 1 (.undelegateCascade 1 2)).1 1 (.get 4 2)).2 = .value 8 ∧
+    (step (step s 1 (.undelegateCascade 1 2)).1 1 (.get 4 1)).2 = .err .denied := by decide
+
+/-- non-vacuity on a DIAMOND that is not a tree — root grants A=1 Admin on s1, s2; A → B=2 (s1, s2), B → C=3 (s1, s2),
+    B → D=4 (s1), C → D (s2): D is reached through two records below A → B.  Both are below it, the cascade reports all
+    four records, nobody below reads anything afterwards, A is untouched; cutting the inner record B → C instead
+    takes C → D with it and leaves B → D. -/
+example :
+    let s := run (init) [(0, .set 0 1 7 3), (0, .set 0 2 8 3), (0, .grant 0 1 1 .admin), (0, .grant 0 1 2 .admin),
+                         (0, .delegate 1 2 [1, 2] .write none), (0, .delegate 2 3 [1, 2] .read none),
+                         (0, .delegate 2 4 [1] .read none), (0, .delegate 3 4 [2] .read none)]
+    Below s.delegs 1 2 ⟨2, 4, [1], 2⟩ ∧ Below s.delegs 1 2 ⟨3, 4, [2], 3⟩ ∧
+    (step s 1 (.get 4 1)).2 = .value 7 ∧ (step s 1 (.get 4 2)).2 = .value 8 ∧
+    (step s 1 (.undelegateCascade 1 2)).2 = .pairs [(1, 2), (2, 3), (2, 4), (3, 4)] ∧
+    (step s 1 (.undelegateCascade 1 2)).1.delegs = [] ∧
+    (step (step s 1 (.undelegateCascade 1 2)).1 1 (.get 4 2)).2 = .err .denied ∧
+    (step (step s 1 (.undelegateCascade 1 2)).1 1 (.get 4 1)).2 = .err .denied ∧
+    (step (step s 1 (.undelegateCascade 1 2)).1 1 (.get 3 2)).2 = .err .denied ∧
+    (step (step s 1 (.undelegateCascade 1 2)).1 1 (.get 2 1)).2 = .err .denied ∧
+    (step (step s 1 (.undelegateCascade 1 2)).1 1 (.get 1 2)).2 = .value 8 ∧
+    (step s 1 (.undelegateCascade 2 3)).2 = .pairs [(2, 3), (3, 4)] ∧
+    (step (step s 1 (.undelegateCascade 2 3)).1 1 (.get 4 2)).2 = .err .denied ∧
+    (step (step s 1 (.undelegateCascade 2 3)).1 1 (.get 4 1)).2 = .value 7 := by
+  have hds : (run (init) [(0, .set 0 1 7 3), (0, .set 0 2 8 3), (0, .grant 0 1 1 .admin), (0, .grant 0 1 2 .admin),
+                         (0, .delegate 1 2 [1, 2] .write none), (0, .delegate 2 3 [1, 2] .read none),
+                         (0, .delegate 2 4 [1] .read none), (0, .delegate 3 4 [2] .read none)]).delegs =
+      [⟨1, 2, [1, 2], 1⟩, ⟨2, 3, [1, 2], 2⟩, ⟨2, 4, [1], 2⟩, ⟨3, 4, [2], 3⟩] := by decide
+  have hAB : Below [⟨1, 2, [1, 2], 1⟩, ⟨2, 3, [1, 2], 2⟩, ⟨2, 4, [1], 2⟩, ⟨3, 4, [2], 3⟩] 1 2 (⟨1, 2, [1, 2], 1⟩ : DelegRec) :=
+    .direct (by decide) rfl rfl
+  have hBC : Below [⟨1, 2, [1, 2], 1⟩, ⟨2, 3, [1, 2], 2⟩, ⟨2, 4, [1], 2⟩, ⟨3, 4, [2], 3⟩] 1 2 (⟨2, 3, [1, 2], 2⟩ : DelegRec) :=
+    .onward hAB (by decide) rfl
+  refine ⟨?_, ?_, by decide, by decide, by decide, by decide, by decide, by decide, by decide, by decide, by decide,
+    by decide, by decide, by decide⟩
+  · show Below (run _ _).delegs 1 2 _
+    rw [hds]; exact .onward hAB (by decide) rfl
+  · show Below (run _ _).delegs 1 2 _
+    rw [hds]; exact .onward hBC (by decide) rfl
+
+/-- NEGATIVE CONTROL: the variant of the walk that keeps a set of visited AGENTS and skips a record into an agent it
+    has already reached (`cascadeVisitedAgents`, not the code) is NOT complete on the same diamond: after the
+    "cascading revocation" of A → B the record C → D, which lies below A → B, is still in the manager and in the
+    persisted copy, it is not reported, D keeps its VAULT_ACCESS edge on s2 and still reads s2 — whereas the walk over
+    RECORDS that the code performs (`cascadeLoop`) leaves nothing.  On chains and trees the two walks agree. -/
+theorem cascade_visited_agents_leaves_delegation_witness :
+    ∃ (s : State) (d : DelegRec), Below s.delegs 1 2 d ∧
+      d ∈ (s.undelegateCascadeVisitedAgents 1 2).1.delegs ∧
+      d ∈ (s.undelegateCascadeVisitedAgents 1 2).1.pdelegs ∧
+      (s.undelegateCascadeVisitedAgents 1 2).2 = .pairs [(1, 2), (2, 3), (2, 4)] ∧
+      ((s.undelegateCascadeVisitedAgents 1 2).1.get 1 4 2).2 = .value 8 ∧
+      d ∉ (s.undelegateCascade 1 2).1.delegs ∧
+      ((s.undelegateCascade 1 2).1.get 1 4 2).2 = .err .denied ∧
+      -- a chain and a tree: the same answer from both walks
+      (∀ t ∈ [run (init) [(0, .set 0 1 7 3), (0, .delegate 0 1 [1] .admin none), (0, .delegate 1 2 [1] .write none),
+                          (0, .delegate 2 3 [1] .read none)],
+              run (init) [(0, .set 0 1 7 3), (0, .delegate 0 1 [1] .admin none), (0, .delegate 1 2 [1] .write none),
+                          (0, .delegate 1 3 [1] .write none), (0, .delegate 2 4 [1] .read none)]],
+        (t.undelegateCascadeVisitedAgents 0 1).2 = (t.undelegateCascade 0 1).2 ∧
+        (t.undelegateCascadeVisitedAgents 0 1).1.delegs = (t.undelegateCascade 0 1).1.delegs) := by
+  have hds : (run (init) [(0, .set 0 1 7 3), (0, .set 0 2 8 3), (0, .grant 0 1 1 .admin), (0, .grant 0 1 2 .admin),
+                         (0, .delegate 1 2 [1, 2] .write none), (0, .delegate 2 3 [1, 2] .read none),
+                         (0, .delegate 2 4 [1] .read none), (0, .delegate 3 4 [2] .read none)]).delegs =
+      [⟨1, 2, [1, 2], 1⟩, ⟨2, 3, [1, 2], 2⟩, ⟨2, 4, [1], 2⟩, ⟨3, 4, [2], 3⟩] := by decide
+  refine ⟨run (init) [(0, .set 0 1 7 3), (0, .set 0 2 8 3), (0, .grant 0 1 1 .admin), (0, .grant 0 1 2 .admin),
+                         (0, .delegate 1 2 [1, 2] .write none), (0, .delegate 2 3 [1, 2] .read none),
+                         (0, .delegate 2 4 [1] .read none), (0, .delegate 3 4 [2] .read none)],
+    ⟨3, 4, [2], 3⟩, ?_, by decide, by decide, by decide, by decide, by decide, by decide, by decide⟩
+  rw [hds]
+  exact .onward (.onward (.direct (d := ⟨1, 2, [1, 2], 1⟩) (by decide) rfl rfl) (d' := ⟨2, 3, [1, 2], 2⟩) (by decide) rfl)
+    (by decide) rfl
 
 /-! ## at rest -/
 
